@@ -867,6 +867,7 @@ Proof.
     inversion H; subst; cbn [kill dead] in Hd; try discriminate; unfold contents; cbn [fifo]; auto.
   - rewrite map_app. reflexivity.
   - match goal with E : fifo mo = _ |- _ => rewrite E end. reflexivity.
+  - match goal with E : fifo mo = _ |- _ => rewrite E end. reflexivity.
 Qed.
 
 Theorem fifo_refinement c s mo o v mo' : wf c -> Live c s mo ->
@@ -963,9 +964,7 @@ Proof.
   destruct (alloc_front_none _ _ _ Ha) as (Hn1 & Hn2).
   pose proof Hsh as Hsh2. rewrite E in Hsh2. simpl in Hsh2. apply shape_head in Hsh2. simpl in Hsh2.
   repeat split; try tauto; try lia.
-  - intros E2. apply (shape_empty_iff _ _ _ Hsh) in E2. congruence.
-  - apply Hn2. lia.
-  - apply Hn2. lia.
+  intros E2. apply (shape_empty_iff _ _ _ Hsh) in E2. congruence.
 Qed.
 
 (* completeness on an empty ring, the part that holds: requests of at most half the storage *)
@@ -977,3 +976,8 @@ Proof.
   destruct (alloc_front_none _ _ _ Ha) as (_ & Hn2). destruct Hsh as (Hf & He & _).
   specialize (Hn2 ltac:(lia)). lia.
 Qed.
+
+(* with the wide result type of pdu_length( const P& ) PDUs of every size are covered *)
+Theorem monitor_accepts_model_wide c ops : wf c -> lmod c = 0 ->
+  monitor false 0 (Size c) (ovh c) (run c ops) = None.
+Proof. intros Hwf H0. rewrite <- H0 at 1. exact (monitor_accepts_model c ops Hwf). Qed.
